@@ -140,6 +140,13 @@ def shard_body(ctx, sh):
         sym = {'SYM': SymStr(atom, uni)}
         ta = item.replace('{ATTRS}', write_attrs(instrs, base))
         tb = item.replace('{ATTRS}', write_attrs(instrs, sps[k]))
+        # an `allow_unknown` marker on the type (which switches bare attributes to the non-barking parser mode) must not matter either
+        au = z3.Int('au')
+        eng.assume(z3.And(au >= 0, au <= 2))
+        auk = eng.decide([(i, au == i) for i in range(3)])
+        if auk:
+            pre = '#[o2o(allow_unknown)] '
+            ta, tb = (pre + ta, pre + tb) if auk == 1 else (ta, pre + tb)
         eng.aux['texts'] = (ta, tb, k)
         a = outcome(eng, ta, sym)
         b = outcome(eng, tb, sym)
